@@ -1149,6 +1149,36 @@ def cyclic_oracle(ctx):
     ctx.support["cyclic"] = dict(cases=len(picks), nontrivial=len(picks), failures=bad)
 
 
+def cyclic_optional_check(sc):
+    """a search over a cyclic structure that cannot finish raises InfiniteLoopDetected — also through the entry
+    points that are allowed to come back empty (default, must_match=False), from a document and from a Match"""
+    from treepath import pop, pop_match
+    d = {"x": 1, "y": [2, 3]}
+    d["self"] = d
+    src = d if sc["src"] == "doc" else get_match(path.self, d)
+    expr = Builder([]).steps(sc["path"])
+    calls = {"get_default": lambda: get(expr, src, default="dflt"),
+             "get_match_optional": lambda: get_match(expr, src, must_match=False),
+             "pop_default": lambda: pop(expr, src, default="dflt"),
+             "pop_match_optional": lambda: pop_match(expr, src, must_match=False),
+             "get_store_default": lambda: get(expr, src, default="dflt", store_default=True)}
+    try:
+        r = calls[sc["call"]]()
+    except InfiniteLoopDetected:
+        return None, True
+    except Exception as e:  # noqa
+        return f"{sc['call']} over a cyclic structure raised {type(e).__name__} instead of InfiniteLoopDetected", True
+    return f"{sc['call']} over a cyclic structure returned {r!r:.60} for a search that cannot finish", True
+
+
+def cyclic_optional_oracle(ctx):
+    cases = [{"call": c, "src": s_, "path": [["rec"], ["k", "nope"]]}
+             for c in ("get_default", "get_match_optional", "pop_default", "pop_match_optional", "get_store_default") for s_ in ("doc", "match")]
+    picks = cases if ctx.tier == "thorough" else [cases[0], cases[3], cases[4], cases[7]]
+    it = iter(picks)
+    _run(ctx, "cyclic_optional", len(picks), len(picks), lambda rng: next(it), cyclic_optional_check)
+
+
 CHECKS = {"identity": identity_check, "requery": requery_check, "reiter": reiter_check, "interleave": interleave_check, "threads": thread_check,
           "match_truth": match_truth_check, "concat": concat_check, "untraced": untraced_check,
           "cyclic": cyclic_check}
